@@ -374,3 +374,142 @@ func sortNamed(ns []*types.Named) {
 		}
 	}
 }
+
+// decodedNonNilExceptions: reviewed cases where the serialiser's dereference is guarded by a correlated field.
+var decodedNonNilExceptions = map[string]string{
+	"pkg/packet/bgp.MUPType1SessionTransformedRoute.SourceAddress": "Serialize dereferences SourceAddress only when SourceAddressLength > 0, and the decoder stores both together (length 0 ⇒ no address)",
+}
+
+// ruleDecodedNonNil: a successfully decoded object can be serialised without a nil dereference.
+func (c *Ctx) ruleDecodedNonNil(rule string, shorts []string, min int) {
+	r := c.R
+	r.Rule(rule, "for every decodable struct type with a decoder method and a Serialize method: each pointer- or interface-typed field that Serialize dereferences (calls a method on, or reads through) without ever comparing it with nil is assigned on every path of the decoder that returns success; an accepted object with such a field nil panics the first time the route is serialised, printed or converted", min)
+	for _, short := range shorts {
+		alloc, nreach := c.allocatedOnDecodeSide(short)
+		if nreach == 0 {
+			r.Undec(rule, "-", "anchor:entry:"+short, "-", "no parse entry point found")
+			continue
+		}
+		var names []*types.Named
+		for n := range alloc {
+			if n.Obj().Pkg() != nil && strings.HasSuffix(n.Obj().Pkg().Path(), short) {
+				names = append(names, n)
+			}
+		}
+		sortNamed(names)
+		for _, n := range names {
+			if _, ok := n.Underlying().(*types.Struct); !ok {
+				continue
+			}
+			var ser, dec *ssa.Function
+			for _, mn := range []string{"Serialize", "serialize"} {
+				if f := c.P.Func("(*" + short + "." + n.Obj().Name() + ")." + mn); f != nil && f.Blocks != nil {
+					ser = f
+				}
+			}
+			for _, mn := range []string{"DecodeFromBytes", "decodeFromBytes", "decode"} {
+				if f := c.P.Func("(*" + short + "." + n.Obj().Name() + ")." + mn); f != nil && f.Blocks != nil {
+					dec = f
+				}
+			}
+			if ser == nil || dec == nil {
+				continue
+			}
+			unsafeF := map[*types.Var]bool{}
+			nilAware := map[*types.Var]bool{}
+			for _, b := range ser.Blocks {
+				for _, in := range b.Instrs {
+					u, ok := in.(*ssa.UnOp)
+					if !ok {
+						continue
+					}
+					fa, ok := u.X.(*ssa.FieldAddr)
+					if !ok || fa.X != ssa.Value(ser.Params[0]) {
+						continue
+					}
+					f := fieldVarOf(fa)
+					switch f.Type().Underlying().(type) {
+					case *types.Interface, *types.Pointer:
+					default:
+						continue
+					}
+					for _, ref := range *u.Referrers() {
+						switch x := ref.(type) {
+						case *ssa.BinOp:
+							if isNilConst(x.X) || isNilConst(x.Y) {
+								nilAware[f] = true
+							}
+						case ssa.CallInstruction:
+							cc := x.Common()
+							if cc.IsInvoke() && cc.Value == ssa.Value(u) {
+								unsafeF[f] = true
+							}
+							if !cc.IsInvoke() && len(cc.Args) > 0 && cc.Args[0] == ssa.Value(u) && cc.StaticCallee() != nil && cc.StaticCallee().Signature.Recv() != nil {
+								unsafeF[f] = true
+							}
+						case *ssa.FieldAddr:
+							unsafeF[f] = true
+						case *ssa.UnOp:
+							unsafeF[f] = true
+						}
+					}
+				}
+			}
+			fk := short + "." + n.Obj().Name()
+			for f := range unsafeF {
+				if nilAware[f] {
+					continue
+				}
+				marks := map[*ssa.BasicBlock]bool{}
+				for _, b := range dec.Blocks {
+					for _, in := range b.Instrs {
+						switch x := in.(type) {
+						case *ssa.Store:
+							if fa, ok := x.Addr.(*ssa.FieldAddr); ok && fa.X == ssa.Value(dec.Params[0]) && fieldVarOf(fa) == f {
+								marks[b] = true
+							}
+						case ssa.CallInstruction:
+							for _, a := range x.Common().Args {
+								if fa, ok := a.(*ssa.FieldAddr); ok && fa.X == ssa.Value(dec.Params[0]) && fieldVarOf(fa) == f {
+									marks[b] = true
+								}
+							}
+						}
+					}
+				}
+				bad := ""
+				for _, b := range dec.Blocks {
+					ret, ok := b.Instrs[len(b.Instrs)-1].(*ssa.Return)
+					if !ok || len(ret.Results) == 0 || !isNilConst(ret.Results[len(ret.Results)-1]) {
+						continue
+					}
+					seen := map[*ssa.BasicBlock]bool{}
+					work := []*ssa.BasicBlock{dec.Blocks[0]}
+					for len(work) > 0 {
+						x := work[0]
+						work = work[1:]
+						if seen[x] || marks[x] {
+							continue
+						}
+						seen[x] = true
+						if x == b {
+							bad = c.P.InstrPos(ret)
+							break
+						}
+						work = append(work, x.Succs...)
+					}
+				}
+				cons := "field " + f.Name()
+				key := fk + "." + f.Name()
+				switch {
+				case bad == "":
+					r.Ok(rule, fk, cons, c.P.Pos(f.Pos()), "assigned on every successful decode path")
+				case decodedNonNilExceptions[key] != "":
+					r.Except(rule, fk, cons, c.P.Pos(f.Pos()), decodedNonNilExceptions[key])
+				default:
+					r.Bad(rule, fk, cons, bad, "the decoder can return success at "+bad+" without having assigned "+f.Name()+", which Serialize dereferences without a nil test: the object is accepted and then panics when the route is serialised, printed or converted")
+				}
+			}
+		}
+	}
+}
